@@ -97,9 +97,11 @@ def named_variant(rng, shape, mode):
     counter = [0]
     inner = [0]
 
+    glued = ["7", "1", "2", "12", "a", "b", "ab", "21", "x", "1a"] if mode == "glued" else None
+
     def go(sh, depth):
         if sh is None:
-            nm = f"l{counter[0]}"
+            nm = f"l{counter[0]}" if glued is None else glued[counter[0] % len(glued)]
             counter[0] += 1
             return nm
         d = {"ch": [go(c, depth + 1) for c in sh]}
@@ -371,7 +373,7 @@ def run(ctx, spec):
         idx = 0
         for n in range(1, spec["maxleaves"] + 1):
             for shape in RT.any_arity_shapes(n):
-                for mode in ("plain", "named", "both", "partial"):
+                for mode in ("plain", "named", "both", "partial", "glued"):
                     idx += 1
                     if idx % spec["n"] != spec["i"]:
                         continue
